@@ -419,6 +419,8 @@ def c03(tier, seed):
         {'line': './st 中 0 && ./st b 3 ; ./st é 7', 'files': {'st': ST}, 'expect_stdout': '中\nb\né\n', 'expect_rc': 7, 'area': 'list:multi-byte'},
         {'line': './st é 4 || ./st 中文 0 && ./st c 5', 'files': {'st': ST}, 'expect_stdout': 'é\n中文\nc\n', 'expect_rc': 5, 'area': 'list:multi-byte'},
         {'line': './st a 3; ', 'files': {'st': ST}, 'expect_stdout': 'a\n', 'expect_rc': 3, 'area': 'list:blank-tail'},
+        {'line': './st a#b 0; ./st c 4', 'files': {'st': ST}, 'expect_stdout': 'a#b\nc\n', 'expect_rc': 4, 'area': 'list:hash-inside-a-word'},
+        {'line': './st a# 0 && ./st x#y#z 0 || ./st no 1; ./st d 2 # ; ./st no 9', 'files': {'st': ST}, 'expect_stdout': 'a#\nx#y#z\nd\n', 'expect_rc': 2, 'area': 'list:hash-inside-a-word'},
         {'line': './st a 3 ;  ;  ', 'files': {'st': ST}, 'expect_stdout': 'a\n', 'expect_rc': 3, 'area': 'list:blank-tail'},
         {'line': './st a 0 && ./st b 5 ; \t', 'files': {'st': ST}, 'expect_stdout': 'a\nb\n', 'expect_rc': 5, 'area': 'list:blank-tail'},
         {'line': './st a 3; echo $? ;  ', 'files': {'st': ST}, 'expect_stdout': 'a\n3\n', 'expect_rc': 0, 'area': 'list:blank-tail'},
